@@ -482,6 +482,7 @@ class MailboxSet(MailboxSetInterface[MailboxData]):
         return '/'
 
     async def set_subscribed(self, name: str, subscribed: bool) -> None:
+        self._layout.get_path(name, self.delimiter)  # rejects invalid names
         async with Subscriptions.with_write(self._path) as subs:
             subs.set(name, subscribed)
 
